@@ -6,6 +6,24 @@ VERIF = Path(__file__).resolve().parent.parent
 ALL = [f"C{i:02d}" for i in range(1, 20)]
 
 CLAIMED = {
+    "C11": dict(
+        text="api/RoundTrip.tla states component-wise equality of two packages (module list and order, ports with direction and order, signals, "
+             "instances with reference, parameter names and values, connection ports and targets incl. slices and concatenations, external "
+             "modules with port order and spice type, literals) and names the first difference. Every package of the corpus (valid universe "
+             "designs, the examples' exported packages, and modules full of primitive / external-module instances with parameter values of "
+             "every class, literals and every spice type) is imported with from_proto and re-exported; TLC (Trace_RoundTrip) compares.",
+        note="Trusted: the uniform projection of both packages in harness/props/c11.py, TLC. The imported modules are re-exported in package order.",
+        ref="6 C11", technique="TLA+ structural equality spec (RoundTrip) decided by TLC on recorded package pairs"),
+    "C13": dict(
+        text="api/Params.tla states how each class of parameter value must appear on the exported instance (None omitted; str / string-valued Enum "
+             "/ Literal / Decimal -> literal with the same text; int -> int64; float -> double with the same bits; Prefixed -> prefix enum by "
+             "the exponent table, integral mantissa that fits 64 bits -> int64 else the exact decimal string, compared by value with a decimal "
+             "parser self-checked by MC_Params; Scalar fields: numeric text -> UNIT-prefixed number of the same decimal value, other text -> "
+             "literal), the ideal-primitive name map and the pulse-source parameter renaming. Every primitive x every parameter field x value "
+             "class, and external modules with dict- and paramclass-typed parameters, are exported and decided by TLC (Trace_Params).",
+        note="Trusted: value descriptors and ParamValue reading in harness/props/c13.py, TLC, BigNum. Value pools are finite (19 texts, boundary "
+             "ints, floats, 21 prefixes x mantissas sampled); a value check refusing the primitive call itself is not an export fault.",
+        ref="6 C13", technique="TLA+ functional spec (Params over BigNum) + TLC batch validation of recorded exports"),
     "C07": dict(
         text="sched/ElabSched.tla models ElabPass.elaborate / elaborate_module_base and the process-global per-class done/pending/failed caches, "
              "one action per decision point. It is model-checked (AppliedInOrder, ChildrenFirst, HistoryIndependent, MarkedAreComplete, "
